@@ -411,6 +411,6 @@ func gen(r *rand.Rand, tier string, n int) []any {
 }
 
 func main() {
-	common.Main(common.Prop{ID: "C35", Facts: facts, Gen: gen, Run: run, QuickN: 300, ThoroughN: 5000,
+	common.Main(common.Prop{ID: "C35", Facts: facts, Gen: gen, Run: run, QuickN: 200, ThoroughN: 4000,
 		Preamble: "From Verif Require Import Lib.Crash_Store Lib.Crash_Block.\nImport C35.\n"})
 }
